@@ -475,6 +475,7 @@ def catalogue(tier):
             RenameDim(), InsertDim(), InsertDim(True), RemoveSingleton(),
             RemoveSingleton(True), Reorder(), MaskGt(),
             Eval('C = A * 2'), Eval('C = A * 2', True), Eval('C = A'),
+            Eval('A = A[::-1]'), Eval('C = A[:]'), Eval('A = A'),
             Eval('C = A[:] + A[:]; D = C * C'),
             Add('+'), Add('*'), Interp(), CopyVariable('same'),
             CopyVariable('none'), CopyVariable('obj'), FnGetvar(), FnRemoveSingleton(),
